@@ -150,6 +150,7 @@ def run(ck):
     if cases and model_ok:
         shard = 2500
         mism = []
+        mism_dep = []
         for s in range(0, len(cases), shard):
             part = cases[s:s + shard]
             txt = ("From Coq Require Import List NArith ZArith String.\n"
@@ -157,13 +158,16 @@ def run(ck):
                    "Import ListNotations.\nLocal Open Scope N_scope.\nLocal Open Scope string_scope.\n"
                    "Definition cases : list ccase := [\n  "
                    + ";\n  ".join(to_coq(c) for c in part) + "\n].\n"
-                   "Definition M := Eval vm_compute in mismatches cases.\nPrint M.\n")
+                   "Definition M := Eval vm_compute in mismatches cases.\nPrint M.\n"
+                   "Definition MD := Eval vm_compute in mismatches_deployed cases.\nPrint MD.\n")
             rc, out = ck.coq_eval("cases_%d" % (s // shard), txt)
             got = vlib.parse_coq_list_of_nat(out, "M") if rc == 0 else None
-            if got is None:
+            gotd = vlib.parse_coq_list_of_nat(out, "MD") if rc == 0 else None
+            if got is None or gotd is None:
                 ck.broken.append({"what": "correspondence evaluation failed", "detail": out[-1500:]})
                 break
             mism += [s + i for i in got]
+            mism_dep += [s + i for i in gotd]
         ck.coverage["correspondence_cases"] = len(cases)
         ck.coverage["correspondence_mismatches"] = len(mism)
         for i in mism[:50]:
@@ -178,6 +182,15 @@ def run(ck):
                 ck.violation("corr:%s:%s" % (c["stream"], c["op"]), why,
                              {"case": c, "model": "Sni/Wire.v evaluated by vm_compute disagrees",
                               "observed": c["obs"]})
+        ck.coverage["deployed_protocol_mismatches"] = len(mism_dep)
+        for i in [i for i in mism_dep if i not in set(mism)][:50]:
+            c = cases[i]
+            ck.broken.append({"what": "deployed protocol: the current code treats a deployed frame differently",
+                              "stream": c["stream"], "case_index": i})
+            ck.violation("deployed:%s:%s" % (c["stream"], c["op"]),
+                         "a frame of the deployed protocol is encoded/decoded differently by the current code",
+                         {"case": c, "model": "Sni/Wire.v deployed_schemas/deployed_table disagree",
+                          "observed": c["obs"]})
     elif cases and not model_ok:
         ck.broken.append({"what": "model does not compile; correspondence not evaluated"})
 
